@@ -681,8 +681,11 @@ impl<Front: SocketHandler> ConnectionH1<Front> {
                     // onto the tail of the body. A complete, length-delimited
                     // response that merely carries `Connection: close` keeps the
                     // client connection alive as before.
-                    let ended_by_close =
-                        !stream.context.keep_alive_backend && stream.back.expects > 0;
+                    // (`expects` is also left above zero when the editor ends a
+                    // HEAD response early: that one is self-delimited.)
+                    let ended_by_close = !stream.context.keep_alive_backend
+                        && stream.back.expects > 0
+                        && stream.context.method != Some(crate::protocol::http::parser::Method::Head);
                     if stream.context.keep_alive_frontend && !ended_by_close {
                         self.timeout_container.reset();
                         if let StreamState::Linked(token) = old_state {
@@ -1023,11 +1026,24 @@ impl<Front: SocketHandler> ConnectionH1<Front> {
                 }
                 EndStreamAction::ForwardUnterminated => {
                     debug!("{} CLOSING H1 UNTERMINATED STREAM", log_context!(self));
-                    forcefully_terminate_answer(
-                        stream,
-                        &mut self.readiness,
-                        H2Error::InternalError,
-                    );
+                    if !stream.back.consumed {
+                        // Not a single byte of the response reached the
+                        // HTTP/1 client yet: a forced termination would drop
+                        // the unsent head and leave the client without any
+                        // answer until the frontend timer closes the
+                        // connection. Answer 502 instead, like the "no
+                        // response" case and like the timeout arms, which use
+                        // the same `back.consumed` test. (An H2 client gets an
+                        // immediate RST_STREAM from the forced termination.)
+                        let answers = answers_rc.borrow();
+                        set_default_answer(stream, &mut self.readiness, 502, &answers);
+                    } else {
+                        forcefully_terminate_answer(
+                            stream,
+                            &mut self.readiness,
+                            H2Error::InternalError,
+                        );
+                    }
                 }
                 EndStreamAction::SendDefault(status) => {
                     let answers = answers_rc.borrow();
